@@ -314,6 +314,7 @@ def run_skeleton(it, e3, skel, oracle, stats=None, deadline=None, max_paths=2000
         return oracle(env)
 
     nsamples = 0
+    nfallback = 0
     for r in explore(body, base, st, deadline=deadline, max_paths=max_paths):
         if r.kind == 'ok':
             res['obligations'] += 1
@@ -344,8 +345,78 @@ def run_skeleton(it, e3, skel, oracle, stats=None, deadline=None, max_paths=2000
             res['inconclusive'].append('%s: %s' % (skel.sid, r.detail))
         else:
             res['inconclusive'].append('%s: %s %s' % (skel.sid, r.kind, str(r.detail)[:300]))
+            # Concolic completion: the executor could not finish this path (unmodelled library call, solver unknown).
+            # The path prefix is still a solver-decided region of the input space: take a model of it, run the real build on
+            # that instance and evaluate the same oracle on the native result. This decides one representative per unfinished
+            # path, not the whole region - the path stays inconclusive - but a failure found this way is a real one.
+            if r.ctx is not None and nfallback < 24:
+                try:
+                    leafvars = [c for l in skel.leaves for c in (getattr(l, 'vars', None) or [])]
+                    alpha = _interesting_chars(it)
+                    seen_src = set()
+                    for rep in range(8):
+                        # representative `rep`: a model of the path prefix steered towards the rep-th character constant the crate's
+                        # own code compares against (taken from the MIR dump), which is where string-handling changes bite
+                        r.ctx.solver.push()
+                        want = alpha[rep % len(alpha)]
+                        for c in leafvars:
+                            if want >= (1 << c.size()):
+                                continue
+                            r.ctx.solver.push()
+                            r.ctx.solver.add(c == want)
+                            if r.ctx.solver.check() == z3.sat:
+                                r.ctx.solver.pop(); r.ctx.solver.add(c == want)
+                            else:
+                                r.ctx.solver.pop()
+                        sat = r.ctx.solver.check() == z3.sat
+                        m = r.ctx.solver.model() if sat else None
+                        r.ctx.solver.pop()
+                        if not sat:
+                            break
+                        src = skel.render_source(m); o = skel.concrete_options(m, r.ctx)
+                        if (src, json.dumps(o, sort_keys=True)) in seen_src:
+                            continue
+                        seen_src.add((src, json.dumps(o, sort_keys=True)))
+                        cand = {'skeleton': skel.sid, 'kind': 'native-fallback', 'obligation': None, 'source': src, 'options': o, 'tsx': skel.tsx, 'info': None,
+                                'variants': [{world.JSON_NAMES.get(k, k): v for k, v in ov.items()} for ov in skel.variants],
+                                'alt_sources': [skel.render_source(m, at) for at in skel.alt_templates], 'twice': skel.rerun_on_output}
+                        nfallback += 1
+                        res['concolic'] = res.get('concolic', 0) + 1
+                        ok, d = native_check(e3, oracle, cand, skel)
+                        if ok is True:
+                            cand['obligation'] = d.get('obligation') or ('panic: ' + str(d.get('message'))[:80])
+                            cand['kind'] = 'panic' if d.get('native') == 'panic' else 'violation'
+                            cand['info'] = d.get('info')
+                            cand['via'] = 'concolic completion of an unfinished path (%s)' % str(r.detail)[:120]
+                            res['violations'].append(cand)
+                            break
+                        if not leafvars:
+                            break
+                except Exception as e:          # the fallback must never turn into an alarm by itself
+                    res['inconclusive'].append('%s: concolic completion failed: %s: %s' % (skel.sid, type(e).__name__, str(e)[:200]))
     res['stats'] = stats_dict(st)
     return res
+
+
+_ALPHA = None
+
+
+def _interesting_chars(it):
+    global _ALPHA
+    if _ALPHA is None:
+        import re as _re
+        cs = list(getattr(it.prog, 'char_consts', []))
+        esc = {'\\t': 9, '\\n': 10, '\\r': 13}
+        vals = []
+        for c in cs:
+            v = esc.get(c, ord(c[-1]))
+            if v not in vals:
+                vals.append(v)
+        for v in (ord('v'), ord('-'), ord('_'), ord(':'), ord('o'), ord('n'), ord('A'), ord('0'), ord(' '), ord('$')):
+            if v not in vals:
+                vals.append(v)
+        _ALPHA = vals
+    return _ALPHA
 
 
 def _plain(model, v):
